@@ -34,6 +34,11 @@ class Scheduler:
         self.observers = []          # callables run (by the thread holding the baton) at every pre-emption point
         self.points = 0
         self.timeouts_fired = 0
+        self.serials = 0
+        # lock-free state changes happen here: pre-empt more often inside them
+        self.hot_functions = {"close", "_response_closed", "_close_connections", "assign_to_connection", "clear_connection"}
+        self.hot_prob = 0.6
+        self.frozen = {}
 
     # ---- called from worker threads -------------------------------------------------------------------------------
     def _me(self):
@@ -47,13 +52,22 @@ class Scheduler:
             elif t["state"] == "blocked":
                 if t["can_run"]():
                     out.append(tid)
-        return out
+        # a thread parked in the middle of a lock-free state change stays parked for a while, so that the others run into the window
+        thawed = [tid for tid in out if self.frozen.get(tid, 0) <= 0]
+        return thawed or out
 
-    def _pick_and_switch(self, me, must_switch=False):
+    def _pick_and_switch(self, me, must_switch=False, hot=False):
         """called with cv held by the thread that has the baton"""
         runnable = self._runnable()
-        if me in runnable and not must_switch and (len(runnable) == 1 or self.rng.random() >= self.switch_prob):
+        prob = max(self.switch_prob, self.hot_prob) if hot else self.switch_prob
+        for tid in list(self.frozen):
+            self.frozen[tid] -= 1
+            if self.frozen[tid] <= 0:
+                del self.frozen[tid]
+        if me in runnable and not must_switch and (len(runnable) == 1 or self.rng.random() >= prob):
             return
+        if hot and not must_switch and len(runnable) > 1 and self.rng.random() < 0.5:
+            self.frozen[me] = self.rng.choice([5, 20, 60, 150])
         cands = [t for t in runnable if t != me] or ([me] if me in runnable else [])
         if not cands:
             # nobody can run: time-outs are the only way forward
@@ -98,7 +112,8 @@ class Scheduler:
                 raise Deadlock("step budget")
             for ob in self.observers:
                 ob(what)
-            self._pick_and_switch(me)
+            hot = bool(what) and what[0] == "line" and (what[2] in self.hot_functions)
+            self._pick_and_switch(me, hot=hot)
 
     def block_until(self, can_run, blocked_on, timeout_ok=False):
         """block the calling thread until can_run() holds (evaluated by whoever holds the baton); returns 'timeout' if the
@@ -130,7 +145,16 @@ class Scheduler:
 
         def line_tracer(frame, event, arg):
             if event == "line":
-                self.point(("line", frame.f_code.co_name, frame.f_lineno))
+                obj = frame.f_locals.get("self")
+                serial = getattr(obj, "_verif_serial", None)
+                if serial is None and obj is not None:
+                    self.serials += 1
+                    serial = self.serials
+                    try:
+                        obj._verif_serial = serial       # ids are reused after garbage collection; a serial number is not
+                    except Exception:  # noqa
+                        serial = None
+                self.point(("line", frame.f_code.co_filename.rsplit("/", 1)[-1], frame.f_code.co_name, frame.f_lineno, serial))
             return line_tracer
 
         def body(name, fn):
